@@ -6,7 +6,8 @@
    premise of each theorem (never an axiom):
      verify_contract : it returns True or raises MemoerError (MemoerVerifyError);
      verify_no_vid   : an empty signer id never verifies. *)
-From Hio Require Import Base.Prelude Model.B64 Model.MemoGram Model.MemoRx Proofs.MemoRxProofs.
+From Hio Require Import Base.Prelude Model.B64 Model.MemoGram Model.MemoRx Proofs.MemoRxProofs
+  Proofs.MemoRxEscapeProofs.
 
 Definition verify_contract (verify : bytes -> bytes -> bytes -> res unit) : Prop :=
   forall v s m, verify v s m = Ok tt \/ verify v s m = Exc MemoErr.
@@ -28,6 +29,18 @@ Theorem C22_total : forall verify, verify_contract verify ->
   forall authic ops s, Forall (fun x => x = None) (snd (run verify authic s ops)).
 Proof. intros verify Hv. exact (run_quiet verify Hv). Qed.
 Print Assumptions C22_total.
+
+(* The same without any assumption on verify: for EVERY function verify, every
+   datagram sequence and every service pattern, an exception that escapes a
+   servicing call is never MemoerError and is one that verify itself raised on
+   some input.  (So the only way the receive side can raise is Memoer.verify
+   raising something other than MemoerError; the harness records every verify
+   outcome of every run and fails on such an outcome.) *)
+Theorem C22_escapes_only_from_verify : forall verify authic ops s k,
+  In (Some k) (snd (run verify authic s ops)) ->
+  k <> MemoErr /\ exists v sg m, verify v sg m = Exc k.
+Proof. exact run_escape. Qed.
+Print Assumptions C22_escapes_only_from_verify.
 
 (* An invalid gram is dropped: the receive state is exactly what it was. *)
 Theorem C22_invalid_dropped : forall verify authic es g src,
